@@ -1,1 +1,534 @@
-fn main() {}
+//! C32 — the `generate!` macro tracks every WIT file it reads.
+//!
+//! Space: package layouts {single file, directory, directory + deps/ (1 level), directory + deps/
+//! (2 levels: transitive dep, multi-file dep, single-file dep, unused dep), two paths} x macro
+//! forms {default wit/ dir, `path: "…"`, `path: ["…", …]`, `"w" in "…"`, `inline`, `inline` +
+//! `path`, `inline` + `path: [..]`}, every combination that is expressible.
+//! Each case is a tiny crate using the real `wit_bindgen::generate!` (path dependency on
+//! <repo>/crates/guest-rust, default features), all built by one `cargo check --offline`.
+//! Oracle: the reference read-set of a case — every file of the layout whose corruption makes
+//! `wit_parser::Resolve::push_path` over the same roots fail, united with the source list
+//! `push_path` returns — must be contained in rustc's dep-info (`deps/<crate>-*.d`) of the crate.
+//! Thorough additionally edits each such file (kind by kind) and requires cargo to re-check
+//! the crate.
+
+use e5_build::util::*;
+use serde_json::json;
+use std::collections::{BTreeMap, BTreeSet};
+use std::path::{Path, PathBuf};
+
+#[derive(Clone, Debug)]
+struct FileSpec {
+    rel: String,
+    kind: &'static str,
+    text: String,
+    /// the layout author's belief; only used to cross-check the perturbation reference
+    expect_read: bool,
+}
+
+#[derive(Clone, Debug)]
+struct CaseSpec {
+    layout: &'static str,
+    form: &'static str,
+    files: Vec<FileSpec>,
+    /// roots handed to the macro (relative to the crate dir), in order
+    roots: Vec<String>,
+    /// macro invocation text
+    invocation: String,
+}
+
+impl CaseSpec {
+    fn name(&self) -> String {
+        format!("{}:{}", self.layout, self.form)
+    }
+    fn crate_name(&self) -> String {
+        format!("c32_{}_{}", self.layout, self.form).replace(['-', '+', ':'], "_")
+    }
+}
+
+fn f(rel: &str, kind: &'static str, text: &str, expect_read: bool) -> FileSpec {
+    FileSpec { rel: rel.into(), kind, text: text.into(), expect_read }
+}
+
+/// Files of a layout rooted at `root` (a directory unless the layout is `single-file`).
+fn layout_files(layout: &str, root: &str) -> Vec<FileSpec> {
+    let decoys = |root: &str| {
+        vec![
+            f(&format!("{root}/notes.txt"), "decoy-non-wit", "not wit at all {{{", false),
+            f(&format!("{root}/sub/nested.wit"), "decoy-nested-dir", "package test:nested;\ninterface n {}\n", false),
+        ]
+    };
+    match layout {
+        "single-file" => vec![f(
+            root,
+            "root-file",
+            "package test:main;\n\ninterface i {\n  f: func();\n}\n\nworld w {\n  import i;\n}\n",
+            true,
+        )],
+        "dir" => {
+            let mut v = vec![
+                f(&format!("{root}/main.wit"), "root-file", "package test:main;\n\nworld w {\n  import i;\n}\n", true),
+                f(&format!("{root}/iface.wit"), "second-root-file", "interface i {\n  f: func();\n}\n", true),
+            ];
+            v.extend(decoys(root));
+            v
+        }
+        "dir-deps1" => {
+            let mut v = vec![
+                f(
+                    &format!("{root}/main.wit"),
+                    "root-file",
+                    "package test:main;\n\ninterface i {\n  f: func();\n}\n\nworld w {\n  import i;\n  import test:dep-a/ia;\n}\n",
+                    true,
+                ),
+                f(
+                    &format!("{root}/deps/dep-a/a.wit"),
+                    "dep-dir-file",
+                    "package test:dep-a;\n\ninterface ia {\n  g: func() -> u32;\n}\n",
+                    true,
+                ),
+            ];
+            v.extend(decoys(root));
+            v
+        }
+        "dir-deps2" => {
+            let mut v = vec![
+                f(
+                    &format!("{root}/main.wit"),
+                    "root-file",
+                    "package test:main;\n\nworld w {\n  import i;\n  import test:dep-a/ia;\n  import test:dep-a/ia2;\n}\n",
+                    true,
+                ),
+                f(&format!("{root}/iface.wit"), "second-root-file", "interface i {\n  f: func();\n}\n", true),
+                f(
+                    &format!("{root}/deps/dep-a/a.wit"),
+                    "dep-dir-file",
+                    "package test:dep-a;\n\ninterface ia {\n  use test:dep-b/ib.{t};\n  g: func() -> t;\n}\n",
+                    true,
+                ),
+                f(&format!("{root}/deps/dep-a/a2.wit"), "dep-dir-second-file", "interface ia2 {\n  h: func();\n}\n", true),
+                f(
+                    &format!("{root}/deps/dep-b.wit"),
+                    "dep-single-file-transitive",
+                    "package test:dep-b;\n\ninterface ib {\n  type t = u32;\n}\n",
+                    true,
+                ),
+                f(
+                    &format!("{root}/deps/unused-c/c.wit"),
+                    "dep-unused",
+                    "package test:unused-c;\n\ninterface ic {\n  k: func();\n}\n",
+                    true,
+                ),
+                f(&format!("{root}/deps/dep-a/deps/deeper/d.wit"), "decoy-deps-of-deps", "package test:deeper;\ninterface d {}\n", false),
+            ];
+            v.extend(decoys(root));
+            v
+        }
+        _ => unreachable!(),
+    }
+}
+
+const INLINE_MAIN: &str = "package test:inl;\n\nworld wi {\n  import test:main/i;\n}\n";
+const INLINE_ALONE: &str = "package test:inl;\n\ninterface j {\n  q: func();\n}\n\nworld wi {\n  import j;\n}\n";
+
+fn cases() -> Vec<CaseSpec> {
+    let mut v = Vec::new();
+    let lit = |s: &str| format!("{s:?}");
+    // --- one root -----------------------------------------------------------------------------
+    for layout in ["single-file", "dir", "dir-deps1", "dir-deps2"] {
+        let forms: &[&str] = if layout == "single-file" {
+            &["path", "path-list1", "shorthand", "inline+path"]
+        } else if layout.starts_with("dir-deps") {
+            // the `"w" in "dir"` shorthand has no place for `generate_all`, which worlds that
+            // import foreign packages need
+            &["default", "path", "path-list1", "inline-default-dir", "inline+path", "inline+path-list1"]
+        } else {
+            &["default", "path", "path-list1", "shorthand", "inline-default-dir", "inline+path", "inline+path-list1"]
+        };
+        for form in forms {
+            let root: String = match (*form, layout) {
+                ("default", _) | ("inline-default-dir", _) => "wit".into(),
+                (_, "single-file") => "schema/world.wit".into(),
+                _ => "schema".into(),
+            };
+            let files = layout_files(layout, &root);
+            let invocation = match *form {
+                "default" => "wit_bindgen::generate!({ world: \"w\", generate_all });".to_string(),
+                "path" => format!("wit_bindgen::generate!({{ path: {}, world: \"w\", generate_all }});", lit(&root)),
+                "path-list1" => format!("wit_bindgen::generate!({{ path: [{}], world: \"w\", generate_all }});", lit(&root)),
+                "shorthand" => format!("wit_bindgen::generate!(\"w\" in {});", lit(&root)),
+                "inline-default-dir" => format!("wit_bindgen::generate!({{ inline: {}, world: \"wi\", generate_all }});", lit(INLINE_MAIN)),
+                "inline+path" => format!("wit_bindgen::generate!({{ inline: {}, path: {}, world: \"wi\", generate_all }});", lit(INLINE_MAIN), lit(&root)),
+                "inline+path-list1" => format!("wit_bindgen::generate!({{ path: [{}], inline: {}, world: \"wi\", generate_all }});", lit(&root), lit(INLINE_MAIN)),
+                _ => unreachable!(),
+            };
+            v.push(CaseSpec { layout, form, files, roots: vec![root], invocation });
+        }
+    }
+    // --- inline only, no directory at all (nothing to track; vacuity guard for the reference) ---
+    v.push(CaseSpec {
+        layout: "none",
+        form: "inline",
+        files: vec![],
+        roots: vec![],
+        invocation: format!("wit_bindgen::generate!({{ inline: {}, world: \"wi\", generate_all }});", lit(INLINE_ALONE)),
+    });
+    // --- two paths ------------------------------------------------------------------------------
+    let two = |a_deps: bool| -> Vec<FileSpec> {
+        let mut v = vec![
+            f("pb/other.wit", "first-path-file", "package test:other;\n\ninterface o {\n  type t = u64;\n  p: func() -> t;\n}\n", true),
+            f("pb/other2.wit", "first-path-second-file", "interface o2 {\n  p2: func();\n}\n", true),
+            f(
+                "pa/main.wit",
+                "second-path-file",
+                if a_deps {
+                    "package test:main;\n\ninterface i {\n  use test:other/o.{t};\n  f: func() -> t;\n}\n\nworld w {\n  import i;\n  import test:other/o2;\n  import test:dep-a/ia;\n}\n"
+                } else {
+                    "package test:main;\n\ninterface i {\n  use test:other/o.{t};\n  f: func() -> t;\n}\n\nworld w {\n  import i;\n  import test:other/o2;\n}\n"
+                },
+                true,
+            ),
+            f("pa/more.wit", "second-path-second-file", "interface more {\n  m: func();\n}\n", true),
+        ];
+        if a_deps {
+            v.push(f("pa/deps/dep-a/a.wit", "second-path-dep-file", "package test:dep-a;\n\ninterface ia {\n  g: func() -> u32;\n}\n", true));
+        }
+        v
+    };
+    for (layout, a_deps) in [("two-paths", false), ("two-paths-deps", true)] {
+        v.push(CaseSpec {
+            layout,
+            form: "path-list2",
+            files: two(a_deps),
+            roots: vec!["pb".into(), "pa".into()],
+            invocation: "wit_bindgen::generate!({ path: [\"pb\", \"pa\"], world: \"test:main/w\", generate_all });".into(),
+        });
+        v.push(CaseSpec {
+            layout,
+            form: "inline+path-list2",
+            files: two(a_deps),
+            roots: vec!["pb".into(), "pa".into()],
+            invocation: format!(
+                "wit_bindgen::generate!({{ inline: {}, path: [\"pb\", \"pa\"], world: \"wi\", generate_all }});",
+                lit("package test:inl;\n\nworld wi {\n  import test:main/i;\n  import test:main/more;\n}\n")
+            ),
+        });
+    }
+    v
+}
+
+/// Parse the roots of a crate dir the way the macro documents it (push_path per root, in order).
+fn parse_roots(dir: &Path, roots: &[String]) -> Result<BTreeSet<PathBuf>, String> {
+    let mut r = wit_parser::Resolve::default();
+    let mut out = BTreeSet::new();
+    for root in roots {
+        let p = std::fs::canonicalize(dir.join(root)).map_err(|e| e.to_string())?;
+        let (_, sources) = r.push_path(&p).map_err(|e| format!("{e:#}"))?;
+        for s in sources.paths() {
+            out.insert(std::fs::canonicalize(s).unwrap_or_else(|_| s.to_path_buf()));
+        }
+    }
+    Ok(out)
+}
+
+fn write_case(dir: &Path, c: &CaseSpec, repo: &str) {
+    std::fs::create_dir_all(dir.join("src")).unwrap();
+    for fl in &c.files {
+        let p = dir.join(&fl.rel);
+        std::fs::create_dir_all(p.parent().unwrap()).unwrap();
+        std::fs::write(&p, &fl.text).unwrap();
+    }
+    std::fs::write(
+        dir.join("Cargo.toml"),
+        format!(
+            "[package]\nname = \"{}\"\nversion = \"0.0.0\"\nedition = \"2021\"\n\n[lib]\npath = \"src/lib.rs\"\n\n[dependencies]\nwit-bindgen = {{ path = \"{repo}/crates/guest-rust\" }}\n",
+            c.crate_name()
+        ),
+    )
+    .unwrap();
+    std::fs::write(dir.join("src/lib.rs"), format!("#![allow(dead_code, unused)]\n{}\n", c.invocation)).unwrap();
+}
+
+/// Reference read-set: files whose corruption makes the parse fail, plus what push_path lists.
+fn reference(dir: &Path, c: &CaseSpec) -> Result<(BTreeMap<PathBuf, &'static str>, Vec<String>), String> {
+    let listed = parse_roots(dir, &c.roots)?;
+    let mut set: BTreeMap<PathBuf, &'static str> = BTreeMap::new();
+    let mut notes = Vec::new();
+    for fl in &c.files {
+        let p = std::fs::canonicalize(dir.join(&fl.rel)).map_err(|e| e.to_string())?;
+        std::fs::write(&p, "this is }{ not ;; wit %%%\n").unwrap();
+        let broke = parse_roots(dir, &c.roots).is_err();
+        std::fs::write(&p, &fl.text).unwrap();
+        let in_list = listed.contains(&p);
+        if broke || in_list {
+            set.insert(p.clone(), fl.kind);
+        }
+        if broke != in_list {
+            notes.push(format!("{}: {} corruption-detected={broke} listed-by-push_path={in_list}", c.name(), fl.rel));
+        }
+        if (broke || in_list) != fl.expect_read {
+            notes.push(format!("{}: {} layout author expected read={} but reference says {}", c.name(), fl.rel, fl.expect_read, broke || in_list));
+        }
+    }
+    for p in &listed {
+        if !set.contains_key(p) {
+            notes.push(format!("{}: push_path lists {p:?} which is not a layout file", c.name()));
+        }
+    }
+    Ok((set, notes))
+}
+
+fn dep_info_files(target: &Path, crate_name: &str) -> Option<BTreeSet<PathBuf>> {
+    let deps = target.join("debug/deps");
+    let mut newest: Option<(std::time::SystemTime, PathBuf)> = None;
+    for e in std::fs::read_dir(&deps).ok()?.flatten() {
+        let n = e.file_name().to_string_lossy().into_owned();
+        if n.starts_with(&format!("{crate_name}-")) && n.ends_with(".d") {
+            let m = e.metadata().ok()?.modified().ok()?;
+            if newest.as_ref().map(|(t, _)| m > *t).unwrap_or(true) {
+                newest = Some((m, e.path()));
+            }
+        }
+    }
+    let text = std::fs::read_to_string(newest?.1).ok()?;
+    let mut out = BTreeSet::new();
+    for line in text.lines() {
+        // `target: dep dep dep` lines; paths with spaces are escaped with `\ ` (none here)
+        if let Some((_, deps)) = line.split_once(": ") {
+            for d in deps.split_whitespace() {
+                let p = PathBuf::from(d);
+                out.insert(std::fs::canonicalize(&p).unwrap_or(p));
+            }
+        }
+        // `/path/file:` lines (phony targets) name the same files
+        if let Some(p) = line.strip_suffix(':') {
+            if !p.contains(' ') {
+                let p = PathBuf::from(p);
+                out.insert(std::fs::canonicalize(&p).unwrap_or(p));
+            }
+        }
+    }
+    Some(out)
+}
+
+fn cargo_check(ws: &Path, target: &Path, verbose: bool) -> Out {
+    let mut cmd = std::process::Command::new("cargo");
+    cmd.current_dir(ws)
+        .arg("check")
+        .arg("--offline")
+        .arg("--workspace")
+        .arg("--target-dir")
+        .arg(target)
+        .env_remove("CARGO_TARGET_DIR")
+        .env_remove("RUSTFLAGS")
+        .env_remove("CARGO_ENCODED_RUSTFLAGS")
+        .env("CARGO_NET_OFFLINE", "true")
+        .env("CARGO_TERM_COLOR", "never");
+    if verbose {
+        cmd.arg("-v");
+    }
+    run_cmd(cmd, 1_500_000)
+}
+
+fn main() {
+    let mut run = vcommon::Run::from_args("C32", "exploration");
+    let repo = std::fs::canonicalize(vcommon::repo_root())
+        .unwrap_or_else(|e| vcommon::machinery(&format!("repo root: {e}")))
+        .to_string_lossy()
+        .into_owned();
+    let all = cases();
+    let selected: Vec<CaseSpec> = match run.replay_detail() {
+        Some(d) => {
+            let n = d["case"].as_str().unwrap_or("").to_string();
+            let v: Vec<_> = all.iter().filter(|c| c.name() == n).cloned().collect();
+            if v.is_empty() {
+                vcommon::machinery(&format!("replay: unknown case {n}"));
+            }
+            println!("replaying {n}: {}", v[0].invocation);
+            v
+        }
+        None => all.clone(),
+    };
+    let replaying = run.replay.is_some();
+
+    // ---- workspace in the temp dir --------------------------------------------------------------
+    let scratch = Scratch::new("c32");
+    let ws = scratch.path.clone();
+    let target = PathBuf::from(vcommon::verif_root())
+        .join("target")
+        .join(format!("c32-{:016x}", vcommon::fnv(repo.as_bytes())));
+    let members: Vec<String> = selected.iter().map(|c| format!("\"cases/{}\"", c.crate_name())).collect();
+    std::fs::write(ws.join("Cargo.toml"), format!("[workspace]\nresolver = \"2\"\nmembers = [{}]\n", members.join(", "))).unwrap();
+    // offline resolution: start from the repository's lock file (its working-tree copy)
+    if let Ok(lock) = std::fs::read(format!("{repo}/Cargo.lock")) {
+        std::fs::write(ws.join("Cargo.lock"), lock).unwrap();
+    }
+    let mut refs: Vec<BTreeMap<PathBuf, &'static str>> = Vec::new();
+    let mut notes: Vec<String> = Vec::new();
+    for c in &selected {
+        let dir = ws.join("cases").join(c.crate_name());
+        write_case(&dir, c, &repo);
+        match reference(&dir, c) {
+            Ok((set, n)) => {
+                refs.push(set);
+                notes.extend(n);
+            }
+            Err(e) => vcommon::machinery(&format!("layout {} does not parse with wit-parser: {e}", c.name())),
+        }
+    }
+
+    // ---- build everything once ------------------------------------------------------------------
+    let t0 = std::time::Instant::now();
+    let out = cargo_check(&ws, &target, false);
+    let build_secs = t0.elapsed().as_secs_f64();
+    if !out.ok {
+        // A case crate that does not compile is not a dependency-tracking verdict.  Find out
+        // whether the macro crate itself failed (machinery) or single cases.
+        let failing: Vec<String> = selected
+            .iter()
+            .filter(|c| out.text.contains(&format!("could not compile `{}`", c.crate_name())))
+            .map(|c| c.name())
+            .collect();
+        scratch.remove();
+        let mut lines: Vec<&str> = Vec::new();
+        let mut take = 0;
+        for l in out.text.lines() {
+            if l.starts_with("error") {
+                take = 10;
+            }
+            if take > 0 {
+                lines.push(l);
+                take -= 1;
+            }
+        }
+        vcommon::machinery(&format!(
+            "cargo check of the case workspace failed (cases: {failing:?}): {}",
+            trim_msg(&lines.join("\n"))
+        ));
+    }
+
+    // ---- oracle 1: dep-info ---------------------------------------------------------------------
+    let mut evaluations = 0usize;
+    let mut nontrivial: BTreeSet<(String, &'static str)> = BTreeSet::new();
+    let mut outcomes: BTreeMap<String, usize> = BTreeMap::new();
+    let mut samples = vcommon::Samples::new(10);
+    let mut tracked_total = 0usize;
+    for (c, set) in selected.iter().zip(&refs) {
+        let Some(dep) = dep_info_files(&target, &c.crate_name()) else {
+            vcommon::machinery(&format!("no dep-info for {}", c.crate_name()));
+        };
+        evaluations += 1;
+        let mut missing = Vec::new();
+        for (p, kind) in set {
+            if dep.contains(p) {
+                tracked_total += 1;
+                nontrivial.insert((c.name(), kind));
+                *outcomes.entry(format!("tracked:{kind}")).or_default() += 1;
+            } else {
+                missing.push((p.clone(), *kind));
+                *outcomes.entry(format!("UNTRACKED:{kind}")).or_default() += 1;
+            }
+        }
+        if set.is_empty() {
+            *outcomes.entry("nothing-to-track".into()).or_default() += 1;
+        }
+        // decoys must not be demanded, but note whether they show up
+        samples.offer(|| {
+            json!({"case": c.name(), "invocation": c.invocation, "reference": set.iter().map(|(p, k)| format!("{k}:{}", p.strip_prefix(&ws).unwrap_or(p).display())).collect::<Vec<_>>(), "missing": missing.len()})
+        });
+        for (p, kind) in missing {
+            let key = format!("{}:{}:{}", c.layout, c.form, kind);
+            run.violation(
+                &key,
+                &format!(
+                    "generate! ({}) read {} ({kind}) but the crate's dep-info does not list it: editing it will not trigger recompilation",
+                    c.form,
+                    p.strip_prefix(&ws).unwrap_or(&p).display()
+                ),
+                json!({"case": c.name(), "kind": kind, "invocation": c.invocation}),
+            );
+        }
+        if replaying {
+            println!("  reference read-set: {:?}", set.values().collect::<Vec<_>>());
+        }
+    }
+
+    // ---- oracle 2 (thorough): editing a tracked file re-checks the crate -----------------------
+    let mut edit_rounds = 0usize;
+    let mut edits = 0usize;
+    if run.thorough() || replaying {
+        let kinds: BTreeSet<&'static str> = refs.iter().flat_map(|s| s.values().copied()).collect();
+        // a first verbose run must report every case as fresh (otherwise "dirty" means nothing)
+        let fresh0 = cargo_check(&ws, &target, true);
+        for c in &selected {
+            if !fresh0.text.contains(&format!("Fresh {} ", c.crate_name())) {
+                notes.push(format!("{}: not fresh on an unchanged tree", c.name()));
+            }
+        }
+        for kind in kinds {
+            let mut touched: Vec<usize> = Vec::new();
+            for (i, set) in refs.iter().enumerate() {
+                if let Some((p, _)) = set.iter().find(|(_, k)| **k == kind) {
+                    let mut text = std::fs::read_to_string(p).unwrap();
+                    text.push_str("// edited by C32\n");
+                    std::fs::write(p, text).unwrap();
+                    let when = std::time::SystemTime::now() + std::time::Duration::from_secs(3 + edit_rounds as u64);
+                    if let Ok(fh) = std::fs::File::options().write(true).open(p) {
+                        let _ = fh.set_modified(when);
+                    }
+                    touched.push(i);
+                    edits += 1;
+                }
+            }
+            edit_rounds += 1;
+            let out = cargo_check(&ws, &target, true);
+            if !out.ok {
+                vcommon::machinery(&format!("cargo check failed after editing {kind} files: {}", trim_msg(&out.text)));
+            }
+            for (i, c) in selected.iter().enumerate() {
+                let fresh = out.text.contains(&format!("Fresh {} ", c.crate_name()));
+                let was_touched = touched.contains(&i);
+                evaluations += 1;
+                if was_touched && fresh {
+                    *outcomes.entry(format!("edit-NOT-rechecked:{kind}")).or_default() += 1;
+                    run.violation(
+                        &format!("{}:{}:{}:edit", c.layout, c.form, kind),
+                        &format!("editing the {kind} file of {} leaves the crate fresh: cargo does not re-run generate!", c.name()),
+                        json!({"case": c.name(), "kind": kind, "invocation": c.invocation}),
+                    );
+                } else if was_touched {
+                    *outcomes.entry(format!("edit-rechecked:{kind}")).or_default() += 1;
+                    nontrivial.insert((c.name(), kind));
+                }
+            }
+        }
+    }
+
+    let coverage = json!({
+        "evaluations": evaluations,
+        "distinct_nontrivial": nontrivial.len(),
+        "rule": "distinct (layout:form, file kind) pairs for which a file of the reference read-set was looked up in the crate's dep-info (and, thorough, edited and the re-check observed)",
+        "exhaustive": true,
+        "cases": selected.len(),
+        "layouts": selected.iter().map(|c| c.layout).collect::<BTreeSet<_>>(),
+        "forms": selected.iter().map(|c| c.form).collect::<BTreeSet<_>>(),
+        "tracked_files": tracked_total,
+        "edit_rounds": edit_rounds,
+        "edits": edits,
+        "distinct_outcomes": outcomes,
+        "reference_notes": notes,
+        "build_seconds": build_secs,
+        "target_dir": target.to_string_lossy(),
+        "samples": samples.items,
+    });
+    scratch.remove();
+    run.finish(
+        coverage,
+        vec![
+            "Reference read-set = layout files whose corruption makes wit_parser::Resolve::push_path over the same roots fail, united with the source list push_path returns; decoy files (non-.wit, nested directories, deps/ of a dep) are not demanded.".into(),
+            "A file counts as tracked when its canonical path occurs in the newest target/debug/deps/<crate>-*.d written by rustc for the case crate (native `cargo check --offline`, wit-bindgen default features).".into(),
+            "The shared target directory <verif>/target/c32-<hash of repo root> is kept between runs so that the proc macro is compiled once; a cold run needs 1-3 minutes for that build.".into(),
+            "Thorough: files are edited kind by kind (content + mtime in the future) and `cargo check -v` must not report the crate `Fresh`.".into(),
+        ],
+    );
+}
